@@ -25,6 +25,7 @@ type Program struct {
 	ConFiles   []string
 	Findings   map[string]*Finding
 	Invariants []*Clause
+	NonNilDyn  map[string]bool
 
 	mu        sync.Mutex
 	strIDs    map[string]int
@@ -116,7 +117,7 @@ func Load(repo string, extDir string) (*Program, error) {
 			}
 			P.ConFiles = append(P.ConFiles, f)
 			for _, c := range cs {
-				if !c.External {
+				if !c.External && c.Name != "$nonnil" {
 					return nil, fmt.Errorf("%s:%d: only 'ext' contracts allowed in externals", f, c.Line)
 				}
 				if err := P.addContract(c); err != nil {
@@ -190,6 +191,10 @@ func (P *Program) expandAuto(c *Contract, fn *ssa.Function) error {
 					return err
 				}
 			}
+		case *types.Signature:
+			if err := add(&c.Requires, "[auto.nonnil] "+p.Name()+" != nil"); err != nil {
+				return err
+			}
 		case *types.Interface:
 			if typeName(p.Type()) == "io.Writer" {
 				// the internal colour helpers are only ever handed the record buffer or a strings.Builder
@@ -223,6 +228,13 @@ func (P *Program) expandAuto(c *Contract, fn *ssa.Function) error {
 }
 
 func (P *Program) addContract(c *Contract) error {
+	if c.Name == "$nonnil" {
+		if P.NonNilDyn == nil {
+			P.NonNilDyn = map[string]bool{}
+		}
+		P.NonNilDyn[c.PkgPath] = true
+		return nil
+	}
 	if c.Name == "$invariant" {
 		P.Invariants = append(P.Invariants, c.Requires[0])
 		return nil
